@@ -1206,6 +1206,12 @@ namespace avel {
         auto d2 = extract<2>(y);
         auto d3 = extract<3>(y);
 
+        // A zero divisor must not trap; the result of such a lane is unspecified
+        d0 += (d0 == 0);
+        d1 += (d1 == 0);
+        d2 += (d2 == 0);
+        d3 += (d3 == 0);
+
         vec4x64i quotient{};
         quotient = insert<0>(quotient, n0 / d0);
         quotient = insert<1>(quotient, n1 / d1);
